@@ -255,6 +255,16 @@ func (vc *FuncVC) objValue(env *Env, obj types.Object) *CVal {
 			}
 			return &CVal{T: tFalse, Typ: o.Type()}
 		}
+	case *types.Func:
+		// a package-level function used as a value
+		sp := vc.P.SSA.Package(o.Pkg())
+		if sp == nil {
+			return nil
+		}
+		if fn := sp.Func(o.Name()); fn != nil {
+			return vc.fromVal(vc.val(fn), fn.Type())
+		}
+		return nil
 	case *types.Var:
 		sp := vc.P.SSA.Package(o.Pkg())
 		if sp == nil {
@@ -459,6 +469,9 @@ func (vc *FuncVC) binderSort(t string) (string, types.Type) {
 		return SIface, nil
 	case "byte":
 		return SInt, types.Typ[types.Uint8]
+	}
+	if typ, ok := vc.tryResolveType(t); ok {
+		return vc.sortOf(typ), typ
 	}
 	panic(fmt.Errorf("unknown binder type %q", t))
 }
@@ -1259,4 +1272,13 @@ func (vc *FuncVC) resolveType(src, pkgPath string) types.Type {
 		}
 	}
 	panic(fmt.Errorf("cannot resolve type %q (package %s)", src, pkgPath))
+}
+
+func (vc *FuncVC) tryResolveType(src string) (t types.Type, ok bool) {
+	defer func() {
+		if r := recover(); r != nil {
+			ok = false
+		}
+	}()
+	return vc.resolveType(src, ""), true
 }
